@@ -45,6 +45,29 @@ def childOf (hp : Heap) (m : MTrie) (c : Bytes) : Option (Option Handle) :=
   | none => none
   | some hv => some (kidsLookup m.kids (bytesToHash hv))
 
+/-- A child trie is an OBJECT in Go: when `PutIntoChild`/`ClearFromChild` modify it, every entry of
+    the registry that points to it sees the change (such a second entry exists only after a write
+    through a trie that has a snapshot made the cached root hash of the child stale, so that
+    `delete(childTries, origChildHash)` missed the entry).  Handles are values here; the entries that
+    hold the old value of the modified child are updated. -/
+def reKey (kids : List (Bytes × Handle)) (old new : Handle) : List (Bytes × Handle) :=
+  if old.root.isNone then kids
+  else kids.map (fun e => if e.2.root == old.root && e.2.gen == old.gen then (e.1, new) else e)
+
+/-- `t.PutIntoChild(keyToChild, key, value)` (as `MTrie.putIntoChild`, with `reKey`) -/
+def putIntoChild (H : Bytes → Bytes) (hp : Heap) (m : MTrie) (c k v : Bytes) : Option (Heap × MTrie) :=
+  let child? : Option Handle :=
+    match get hp m.t.root (childPrefix ++ c) with
+    | none => some { root := none, gen := 0, ver := Ver.v0 }
+    | some hv => kidsLookup m.kids (bytesToHash hv)
+  match child? with
+  | none => none
+  | some child0 =>
+    let child := { child0 with ver := m.t.ver }
+    let orig := hash H hp child
+    let p := put H orig.1 child k v
+    some (MTrie.setChild H p.1 { m with kids := reKey (kidsErase m.kids (orig.2.getD [])) child0 p.2 } c p.2)
+
 /-- `t.ClearFromChild(keyToChild, key)`; outer `none` = error -/
 def clearFromChild (H : Bytes → Bytes) (hp : Heap) (m : MTrie) (c k : Bytes) : Option (Heap × MTrie) :=
   match childOf hp m c with
@@ -53,7 +76,7 @@ def clearFromChild (H : Bytes → Bytes) (hp : Heap) (m : MTrie) (c k : Bytes) :
   | some (some child) =>
     let orig := hash H hp child
     let d := delete H orig.1 child k
-    let m1 := { m with kids := kidsErase m.kids (orig.2.getD []) }
+    let m1 := { m with kids := reKey (kidsErase m.kids (orig.2.getD [])) child d.2 }
     match d.2.root with
     | none =>
       let p := delete H d.1 m1.t (childPrefix ++ c)
@@ -104,7 +127,7 @@ def stepOp (H : Bytes → Bytes) (deep : Bool) (s : St) : Op → St × String ×
     match s.hs[h]? with
     | none => (s, "bad-op", false)
     | some x =>
-      match x.m.putIntoChild H s.hp c k v with
+      match putIntoChild H s.hp x.m c k v with
       | none => (s, "panic", true)
       | some r => (s.set r.1 h x r.2, "ok", false)
   | .delc h c =>
